@@ -514,8 +514,19 @@ bool exec_str_a(Ctx &c, const Op &op) {
         c.budget_bytes = n8.size() * 8 + dst->model.size();
         as_target(dst); note_mutating(c, dst);
         std::istringstream is(n8); std::wistringstream ws(nw);
-        Op o2 = op; o2.fault &= ~F_ALLOC;      // libstdc++ swallows exceptions inside formatted extraction: no allocation faults here
+        Op o2 = op; uint32_t k0 = 0;
+        if (op.fault & F_ALLOC) {
+            // The standard library's own token extraction reports a failed allocation through the stream (badbit), not as an exception,
+            // so the fault is placed on the allocations string_theory performs itself, after the token is in hand: the allocations of an
+            // identical std::basic_string extraction are counted first and skipped.
+            std::istringstream is0(n8); std::wistringstream ws0(nw);
+            simrt::heap_op_begin(0);
+            { simrt::SutScope sut; if (wide) { std::wstring t; ws0 >> t; } else { std::string t; is0 >> t; } }
+            k0 = simrt::heap_op_allocs(); simrt::heap_op_end();
+            o2.fa = k0 + op.fa;
+        }
         ExcKind ex = run_sut(c, o2, [&] { if (wide) ws >> *dst->p(); else is >> *dst->p(); });
+        c.op_allocs -= std::min(k0, c.op_allocs);        // (the enumeration counts string_theory's own allocations only)
         if (ex != EX_NONE && ex != EX_BAD_ALLOC && dst->model.size() >= 16) probe(c, PR_THROW_WITH_HEAP_TARGET);
         if (settle(c, o2, ex, wf ? 0 : bit(EX_UNICODE))) { if (wf) dst->model = expect; else dst->st = M_ADOPT; dst->moved_from = false; }
         return true;
